@@ -14,6 +14,10 @@
 //          Decoded last (absent bytes = none of it): -v / -vv (through the runner: the composite of JUnit + console), tests run
 //          in a separate process (-p, 1 case in 32), a text printed through the output before a pass, and up to three actions of
 //          a scripted TestPlugin (pre or post action of a test: print through the result, or record a failure for the test).
+//          Non-ASCII text (decoded very last): up to three insertions of a VALID UTF-8 sequence of 2, 3 or 4 bytes (also next to
+//          markup characters) into the package, a group name, test name, file name, failure file, failure text, plugin text or
+//          printed text.  Bytes that are not valid UTF-8 are outside the domain: the report declares encoding="UTF-8" and the
+//          statement speaks of printable characters.
 //          The registry is run 1..3 times against the SAME output object with a fresh TestResult per pass (what
 //          CommandLineTestRunner does for -rN), the order optionally reversed before a pass (groups stay consecutive; no
 //          shuffle: the statement's precondition); one case in three goes through the REAL, unmodified CommandLineTestRunner
@@ -258,6 +262,31 @@ CaseM decode(Reader& r) {
         uint32_t when = r.below(2);
         t.pluginKind[when] = (int)r.below(2);
         t.pluginText[when] = gen_text(r, 8);
+    }
+    // non-ASCII characters as valid UTF-8, decoded very last
+    static const char* const UTF8[] = {"\xC3\xA9", "\xE2\x82\xAC", "\xF0\x9F\x98\x80", "\xC3\xBF", "\xDF\xBF", "\xE0\xA0\x80", "\xE6\xBC\xA2", "\xC3\xA9&", "<\xE2\x82\xAC", "\"\xC3\xA9\"",
+                                       "\xC3\xA9\xC3\xA9\xC3\xA9", "\xF0\x9F\x98\x80>", "\xC2\xA0", "\xEF\xBB\xBF", "\xC3\x97'"};
+    uint32_t nhigh = r.below(4);
+    for (uint32_t i = 0; i < nhigh; i++) {
+        GroupM& g = c.groups[r.below((uint32_t)c.groups.size())];
+        TestM& t = g.tests[r.below((uint32_t)g.tests.size())];
+        std::vector<std::string*> fields = {&t.name, &t.file, &g.name};
+        if (!c.package.empty()) fields.push_back(&c.package);
+        for (auto& st : t.body) { fields.push_back(&st.text); if (st.kind >= 2) fields.push_back(&st.file); }
+        for (auto& st : t.teardown) { fields.push_back(&st.text); if (st.kind >= 2) fields.push_back(&st.file); }
+        for (int w = 0; w < 2; w++) if (t.pluginKind[w] >= 0) fields.push_back(&t.pluginText[w]);
+        for (uint32_t p = 0; p < c.passes; p++) if (c.hasBanner[p]) fields.push_back(&c.banner[p]);
+        std::string& f = *fields[r.below((uint32_t)fields.size())];
+        bool isTestFile = &f == &t.file;
+        std::string old = f;
+        // insert at a character boundary: positions are taken in the ASCII prefix view (never inside an earlier inserted sequence)
+        size_t pos = r.below((uint32_t)(f.size() > 300 ? 300 : f.size()) + 1);
+        while (pos < f.size() && ((unsigned char)f[pos] & 0xC0) == 0x80) pos++;
+        const char* tok = UTF8[r.below(sizeof UTF8 / sizeof UTF8[0])];
+        if (getenv("VERIF_C16_PROBE_INVALID_UTF8")) tok = "\xFF";   // manual probe only (notes/C16.md round 7): what a byte that is not UTF-8 does
+        f.insert(pos, tok);
+        if (isTestFile) for (auto* ph : {&t.body, &t.teardown}) for (auto& st : *ph) if (st.file == old) st.file = f;
+        if (&f == &g.name) for (bool again = true; again;) { again = false; for (auto& o : c.groups) if (&o != &g && o.name == f) { f += "~"; again = true; } }   // group names stay distinct
     }
     return c;
 }
@@ -620,6 +649,13 @@ int run_and_judge(const CaseM& c, bool useKnown, Verdict& v) {
         if (gf) groupsWithFailure++;
     }
     v.nontrivial = markupSeen || groupsWithFailure >= 2;
+    {
+        bool high = false;
+        auto hb = [&](const std::string& x) { for (unsigned char ch : x) if (ch >= 0x80) high = true; };
+        hb(c.package);
+        for (size_t gi = 0; gi < c.groups.size(); gi++) { hb(c.groups[gi].name); for (size_t ti = 0; ti < c.groups[gi].tests.size(); ti++) { hb(c.groups[gi].tests[ti].name); hb(c.groups[gi].tests[ti].file); for (auto& f : sims[gi][ti].fails) { hb(f.file); hb(f.msg); } for (auto& pr : sims[gi][ti].prints) hb(pr); } }
+        if (high) verif::cls("non-ASCII-UTF-8-in-a-value");
+    }
     {
         size_t idx = 0, longest = c.package.size();
         for (size_t gi = 0; gi < c.groups.size(); gi++) {
